@@ -837,7 +837,7 @@ static int parse(char *text)
             if (s->op == OP_HOLD && s->val > 16) return -1;
             if (s->op == OP_RUN && s->val > 64) return -1;
             s->idx = a->nsteps++;
-            if (++total > 4000) return -1;
+            if (++total > 6000) return -1;
         }
         else {
             return -1;
